@@ -71,7 +71,7 @@ def halflocks(F):
     """monomorphic instantiations of the RCU-style lock, by type: T of HalfLock<T>"""
     ts = set()
     for i in F.inst:
-        m = re.match(r"^signal_hook_registry::half_lock::HalfLock::<(.*)>::read$", i.name)
+        m = re.match(r"^signal_hook_registry::half_lock::HalfLock::<(.*)>::\w+$", i.name)
         if m:
             ts.add(m.group(1))
     if len(ts) < 2:
